@@ -108,7 +108,9 @@ partial def loop (h : IO.FS.Stream) (s : S) : IO Unit := do
     let s := finalize s
     IO.println s!"m_tickend {sameData s.mem s.mem0}"
     loop h s
-  | ["inv", _, _, speed, count0, pos0, _, _, _, present, lp, slp, is16, dnull, lps, lpe, sus, sue, _, _] =>
+  | ["inv", _, _, speed, count0, pos0, _, _, smp, mapped, vsmp, vq, vqsmp, vpaused, present, lp, slp, is16, dnull, lps, lpe, sus, sue, _, _] =>
+    let cv : ChanVoice := { chanSmp := smp.toInt?.getD 0, mapped := b mapped, voiceSmp := vsmp.toInt?.getD 0, queued := b vq,
+                            queuedSmp := vqsmp.toInt?.getD 0, paused := b vpaused }
     let st : InvState := { speed := speed.toNat?.getD 0, count := count0.toInt?.getD 0, pos := pos0.toInt?.getD 0 }
     let x : Option InvSample := if b present then
         some { loop := b lp, sloop := b slp, is16 := b is16, dataNull := b dnull, lps := lps.toInt?.getD 0,
@@ -119,7 +121,7 @@ partial def loop (h : IO.FS.Stream) (s : S) : IO Unit := do
     let tbl := Xmp.Gen.DataWriters.invloopTable
     -- third alternative: the player reset the channel (position change, module restart) earlier in this tick
     let st0 : InvState := { st with count := 0, pos := 0 }
-    IO.println s!"m_inv {sh (invloopStep tbl false st x)} {sh (invloopStep tbl true st x)} {sh (invloopStep tbl false st0 x)}"
+    IO.println s!"m_inv {sh (invloopStep tbl false st x)} {sh (invloopStep tbl true st x)} {sh (invloopStep tbl false st0 x)} coh={bi cv.coherent}"
     loop h s
   | "vend" :: ismod :: lp :: slp :: lb :: sb :: lf :: len :: lps :: lpe :: sus :: sue :: rel :: sl :: _ =>
     let x : SmpInfo := { loop := b lp, sloop := b slp, loopBidir := b lb, sloopBidir := b sb, loopFull := b lf,
